@@ -89,6 +89,13 @@ Fixpoint has_nil_anon_ptr (v : gval) : bool :=
   | _ => false
   end.
 
+(* ---- history independence: the function is pure, so two calls with equal
+   inputs made at different points of a process must return equal results
+   (checked by the driver on every pair of equal inputs of a run, also where
+   the model makes no claim) ---- *)
+Definition same_result (a b : impl_result) : bool :=
+  Bool.eqb (ir_panic a) (ir_panic b) && Bool.eqb (ir_err a) (ir_err b) && keys_eqb (ir_keys a) (ir_keys b).
+
 (* ---- direct checks of the two modelled library functions ---- *)
 Definition title_ok (input output : bytes) : bool := bytes_eqb (title input) output.
 Definition split_ok (input : bytes) (output : list bytes) : bool := keys_eqb (split_dot input) output.
